@@ -529,6 +529,15 @@ def add_rule_stmts(stmts, names, pre=True):
         return ('ifFlag', add_rule_stmts(s.body, names, False), k())
     if isinstance(s, ast.If) and not s.orelse and ast.unparse(s.test) == 'self._in_run':
         return ('ifInRun', add_rule_stmts(s.body, names, False), k())
+    # if not any(s is sink for s in self._sinks): the sink OBJECT is not registered yet (identity, not equality)
+    t = s.test if isinstance(s, ast.If) and not s.orelse else None
+    if isinstance(t, ast.UnaryOp) and isinstance(t.op, ast.Not) and isinstance(t.operand, ast.Call) and ast.unparse(t.operand.func) == 'any' \
+            and len(t.operand.args) == 1 and not t.operand.keywords and isinstance(t.operand.args[0], ast.GeneratorExp):
+        g = t.operand.args[0]
+        if len(g.generators) == 1 and not g.generators[0].ifs and isinstance(g.generators[0].target, ast.Name) \
+                and ast.unparse(g.generators[0].iter) == 'self._sinks' and g.generators[0].target.id not in ('sink', 'self') \
+                and ast.unparse(g.elt) in ('%s is sink' % g.generators[0].target.id, 'sink is %s' % g.generators[0].target.id):
+            return ('ifNotRegistered', add_rule_stmts(s.body, names, False), k())
     if src == 'self._sinks.append(sink)':
         return ('appendSink', k())
     if src == 'sink.startTestRun()':
@@ -566,6 +575,31 @@ def policy_table(cls):
     return '[' + ', '.join(table) + ']'
 
 
+def router_init_stmts(fn):
+    """`StreamResultRouter.__init__` -> [IStmt]"""
+    out = []
+    if [a.arg for a in fn.args.args] != ['self', 'fallback', 'do_start_stop_run'] or [ast.unparse(d) for d in fn.args.defaults] != ['None', 'True']:
+        out.append(OTHER)
+    for s in body_of(fn):
+        src = ast.unparse(s)
+        simple = {'self.fallback = fallback': ('setFallback',), 'self._route_code_prefixes = {}': ('noPrefixes',), 'self._test_ids = {}': ('noIds',),
+                  'self._sinks = []': ('noSinks',), 'self._in_run = False': ('notInRun',)}
+        if src in simple:
+            out.append(simple[src])
+        elif isinstance(s, ast.If) and not s.orelse and [ast.unparse(b) for b in s.body] == ['self._sinks.append(fallback)']:
+            # whether the fallback is registered must not depend on the truth value of the sink object
+            t = ast.unparse(s.test)
+            if t in ('do_start_stop_run and fallback is not None', 'fallback is not None and do_start_stop_run'):
+                out.append(('registerFallbackIfFlagAndPresent',))
+            elif t in ('do_start_stop_run and fallback', 'fallback and do_start_stop_run'):
+                out.append(('registerFallbackIfFlagAndTruthy',))
+            else:
+                out.append(OTHER)
+        else:
+            out.append(OTHER)
+    return out
+
+
 def router_src(tree):
     st = RouterStatus()
     fn = find(tree, 'StreamResultRouter', 'status')
@@ -597,11 +631,14 @@ def addRule : AStmt :=
 
 def policies : List (String × List PStmt) := %s
 
+def init : List IStmt := %s
+
 end TTV.Generated.RouterSrc
 ''' % (lean(st.out('__target__')), lean(st.out('__route__')),
        lean(ctl_stmts(find(tree, 'StreamResultRouter', 'startTestRun'), 'startTestRun')),
        lean(ctl_stmts(find(tree, 'StreamResultRouter', 'stopTestRun'), 'stopTestRun')),
-       lean(add_term), policy_table(find_class(tree, 'StreamResultRouter')))
+       lean(add_term), policy_table(find_class(tree, 'StreamResultRouter')),
+       lean(router_init_stmts(find(tree, 'StreamResultRouter', '__init__'))))
 
 
 # ------------------------------------------------------------------------------------------------ C10: _StreamToTestRecord
